@@ -89,6 +89,26 @@ type Case struct {
 	Methods []string `json:"methods"`
 }
 
+// tcellStacks returns the stacks of goroutines that have a tcell frame.
+func tcellStacks() string {
+	buf := make([]byte, 1<<20)
+	n := runtime.Stack(buf, true)
+	var out []string
+	for _, g := range strings.Split(string(buf[:n]), "\n\n") {
+		if strings.Contains(g, "gdamore/tcell/v2.") {
+			lines := strings.Split(g, "\n")
+			if len(lines) > 11 {
+				lines = lines[:11]
+			}
+			out = append(out, strings.Join(lines, "\n"))
+		}
+	}
+	if len(out) > 7 {
+		out = out[:7]
+	}
+	return strings.Join(out, "\n--\n")
+}
+
 func contains(l []string, s string) bool {
 	for _, x := range l {
 		if x == s {
@@ -223,7 +243,7 @@ func runCase(c Case) (err error) {
 		for i := 0; !stop.Load(); i++ {
 			if tty != nil {
 				tty.Feed([]byte("k\x1b[<0;3;3M\x1b[A"))
-				tty.SetSize(20, 6, true) // same size: the notification still forces a full redraw
+				tty.SetSize(20, 6+i%2, true) // the height really changes (the reference terminal clamps rows, so no tokenizer noise)
 			} else {
 				sim.InjectKey(tcell.KeyRune, 'k', 0)
 				sim.InjectMouse(1, 1, tcell.Button1, 0)
@@ -256,7 +276,7 @@ func runCase(c Case) (err error) {
 	case <-time.After(30 * time.Second):
 		stop.Store(true)
 		stopPoller.Store(true)
-		return fmt.Errorf("methods %v did not finish within 30s (deadlock?)", c.Methods)
+		return fmt.Errorf("methods %v did not finish within 30s (deadlock?); goroutines with tcell frames:\n%s", c.Methods, tcellStacks())
 	}
 	stop.Store(true)
 	bgDone := make(chan struct{})
@@ -274,7 +294,7 @@ func runCase(c Case) (err error) {
 	select {
 	case <-fin:
 	case <-time.After(10 * time.Second):
-		return fmt.Errorf("Fini did not return after methods %v", c.Methods)
+		return fmt.Errorf("Fini did not return after methods %v; goroutines with tcell frames:\n%s", c.Methods, tcellStacks())
 	}
 	if p := firstPanic.Load(); p != nil {
 		return fmt.Errorf("%v", p)
